@@ -294,6 +294,18 @@ impl Property for C18 {
                 _ => 0,
             }
         };
+        // (derived from the gas class so that saved cases keep their format) between registration and the request the
+        // service may have been upgraded and migrated, and months may have passed: registry and trusted set are carried over
+        if let GasC::Affordable(g) = case.gas {
+            if g % 5 == 2 {
+                upgrade_and_migrate(env, &w.its.id).map_err(|e| format!("setup: {}", e))?;
+                cx.label("token_service_upgraded_and_migrated_before_the_request");
+            }
+            if g % 7 == 3 {
+                advance_ledgers(env, 17280 * 100);
+                cx.label("100_days_pass_before_the_request");
+            }
+        }
         let before: Vec<(i128, i128)> = watch.iter().map(|a| (gas_t.balance(a), tok_bal(a))).collect();
 
         if case.authorised {
